@@ -205,30 +205,11 @@ def run(ctx):
     if ch is not None:
         prov = Prov(ch)
         passes = ch.calls_to(r"generate::process_references$")
-        gts = []
-        for bb in sorted(ch.reachable_blocks()):
-            t = ch.term(bb)
-            if t["k"] == "switch":
-                k, pl, neg = trace_bool(ch, t["discr"])
-                if k == "bin":
-                    rv = pl["rv"]
-                    org = prov.origins_op(rv["a"])
-                    if any(o[0] == "call" and o[1].matches(r"process_references$") for o in org):
-                        gts.append((bb, rv, neg))
+        from ..common import zero_tests
+        gts = zero_tests(ch, prov, lambda o: o[0] == "call" and o[1].matches(r"process_references$"))
         if ctx.check(len(gts) == 1 and len(passes) == 1, P, "verdict-test", "one comparison of the reduced count decides the verdict (%d)" % len(gts), ch.where()):
-            bb, rv, neg = gts[0]
-            k0 = op_const(rv["b"])
-            tt, ft = bool_switch_targets(ch, bb)
-            if neg:
-                tt, ft = ft, tt
-            form = (rv["op"], k0.get("int") if k0 else None)
-            if form in (("Gt", 0), ("Ne", 0), ("Ge", 1)):
-                fail_arm, pass_arm = tt, ft
-            elif form in (("Eq", 0), ("Lt", 1), ("Le", 0)):
-                fail_arm, pass_arm = ft, tt
-            else:
-                fail_arm = pass_arm = None
-            ctx.check(fail_arm is not None, P, "verdict-form", "the test is `count > 0` (found %s %s)" % form, ch.where(bb))
+            bb, pass_arm, fail_arm, form = gts[0]
+            ctx.check(fail_arm is not None, P, "verdict-form", "the test is `count > 0` (found %s)" % form, ch.where(bb))
             if fail_arm is not None:
                 r1 = [st for (rb, st) in return_values(ch) if rb in cfg.reach_t(ch, fail_arm)]
                 r2 = [st for (rb, st) in return_values(ch) if rb in cfg.reach_t(ch, pass_arm)]
